@@ -579,7 +579,7 @@ def main(prop, tier="quick", replay_path=None, only=None, do_shrink=True):
         per_sub[s.name] = {
             "kind": s.kind, "exhaustive": bool(s.exhaustive and m["truncated"] == 0 and s.kind == "enum"),
             "evaluations": m["evals"], "nontrivial_cases": m["nt_count"], "distinct_nontrivial": len(m["nt"]),
-            "discarded": dict(m["discards"]), "labels": dict(sorted(m["labels"].items(), key=lambda kv: -kv[1])[:60]),
+            "discarded": dict(m["discards"]), "labels": dict(sorted(m["labels"].items(), key=lambda kv: -kv[1])[:250]),
             "excluded_known": m["excluded_known"], "budget_truncated": m["truncated"],
             "max_observed": {k: float("%.4g" % v) for k, v in m["maxnotes"].items()},
             "failure_buckets": {b: f["count"] for b, f in m["fails"].items()}, "slowest_shard_s": round(m["wall"], 1)}
